@@ -3,6 +3,7 @@ package otlp
 import (
 	"bytes"
 	"compress/gzip"
+	"encoding/base64"
 	"fmt"
 	"io"
 
@@ -79,6 +80,12 @@ func extractAnyValue(anyValue *commonpb.AnyValue) (interface{}, error) {
 	}
 
 	switch anyValue.Value.(type) {
+	case nil:
+		// An AnyValue with none of its fields set is valid: the "empty" value.
+		return nil, nil
+	case *commonpb.AnyValue_BytesValue:
+		// Bytes are base64-encoded, as in the OTLP JSON encoding.
+		return base64.StdEncoding.EncodeToString(anyValue.GetBytesValue()), nil
 	case *commonpb.AnyValue_StringValue:
 		return anyValue.GetStringValue(), nil
 	case *commonpb.AnyValue_IntValue:
